@@ -842,7 +842,7 @@ def gen_C16(rnd, n, tier):
         src = relayout(src0, rnd) if rnd.random() < 0.8 else src0
         if rnd.random() < 0.3: src = rnd.choice(["\n\n", "  \n", "\r\n", "\t", "# header\n\n", " ", "# 7 potions are handed out below\n", "# 100 percent\n\n", "#1 \"x.pory\"\n", "// 3 x\n"]) + src     # the file may start with blank lines / comments
         if rnd.random() < 0.2: src = src + rnd.choice(["\n\n\n", "  ", "\n# eof"])
-        path = rnd.choice(["in.pory", "dir\\sub\\file.pory", "a b.pory", "", "Route%20101.pory", "%d_%s\\x.pory", "é \"q\".pory"])
+        path = rnd.choice(["in.pory", "dir\\sub\\file.pory", "a b.pory", "", "Script1_2.pory", "data/Script2_1/Script1_3.pory", "Script1_1 Script1_4.pory", "Route%20101.pory", "%d_%s\\x.pory", "é \"q\".pory"])
         opt = rnd.random() < 0.5
         grp = []
         for lm in (True, False):
@@ -1062,6 +1062,8 @@ def gen_C13(rnd, n, tier):
             lambda: "applymovement(%s, moves(walk_up))" % u(),
             lambda: "foo((%s + 2) * %s)" % (u(), u()),
             lambda: "foo(%s (%s + 1), %s(3))" % (u(), u(), u()),
+            lambda: "if (specialvar(%s, GetX) == %s) { q }" % (u(), u()),
+            lambda: "switch (specialvar(%s, 7)) { case %s: s }" % (u(), u()),
             lambda: "bar(VAR_X, (%s) + %s 5)" % (u(), u()),
             lambda: "if (flag(FLAG_BASE + %s)) { a }" % u(),
             lambda: "if (var(VAR_BASE + %s) == %s) { a }" % (u(), u()),
